@@ -37,7 +37,8 @@ theorem iter_cons (p : List Nat) (hp : 0 < p.length) (h64 : p.length < 2 ^ 64) (
     have e2' : Rs.add 64 pre.length 1 = Res.ok (pre.length + 1) := Rs.add_ok (by omega)
     have e3 : Rs.sub (pre.length + 1) p.length = Res.ok (pre.length + 1 - p.length) := Rs.sub_ok hle
     simp [e1, e2, e2', e3, hacc]
-  · simp [e1, hacc]
+  · have hacc' : ¬ p.length = Kmp.delta p (Kmp.lps p) q c := fun h => hacc h.symm
+    simp [e1, hacc, hacc']
 
 /-- the translated `next` as a step function on the iterator state `(q, text)`, for the matcher built from `p` -/
 def nextS (p : List Nat) : (Nat × (List Nat × Nat)) → Res ((Nat × (List Nat × Nat)) × Option Nat) :=
